@@ -397,6 +397,9 @@ func (e *Eval) symCall(name string, c *ssa.CallCommon, args []Val, cond int) (Va
 	return Val{}, false
 }
 
+// Guard turns an Unsupported panic into an error.
+func Guard(f func()) (err error) { return guard(f) }
+
 // guard turns an Unsupported panic into an error.
 func guard(f func()) (err error) {
 	defer func() {
